@@ -82,6 +82,13 @@ class Tracker:
                         out = []
                     out.append(ent)
                     break
+            else:
+                if len(c) != len(memo):
+                    # entries that appeared since the last look: remember their first value, so that a
+                    # provisional value that is patched by a later statement is seen as a change
+                    for k, v in list(c.items()):
+                        if k not in memo:
+                            memo[k] = (v, _mrepr(v))
         return out
 
     def check(self, step, op):
